@@ -8,6 +8,7 @@ pub struct Ctx {}
 
 impl Ctx {
     pub fn new() -> Self {
+        crate::storegen::BARE_KEYS.store(true, std::sync::atomic::Ordering::Relaxed);
         Ctx {}
     }
     /// request = list of operations. The model is given, besides the operations, what the
